@@ -901,23 +901,36 @@ func checkVerify(r *Run) {
 				why = "the returned value does not derive from a cryptographic verification primitive over (msg, sig)"
 			}
 		}
-		r.Check(okAll, "C04.verify.primitive", tn2, "VerifyBytes",
-			"every true result is the result of a cryptographic verification primitive applied to the message and the signature",
-			"VerifyBytes "+why+": any byte string is accepted as a signature for this key type", p.pos(vb.Pos()))
+		// address derivation
+		addrFromKey, addrVoid := false, false
 		if ad != nil && ad.Blocks != nil {
-			okA := true
+			addrFromKey, addrVoid = true, true
 			for _, ret := range returnsOf(ad) {
 				v := ret.Results[0]
 				if isNilConst(v) {
-					okA = false
+					addrFromKey = false
 					continue
 				}
+				addrVoid = false
 				recv := ad.Params[0]
 				if !derivesFrom(v, func(y ssa.Value) bool { return y == ssa.Value(recv) }) {
-					okA = false
+					addrFromKey = false
 				}
 			}
-			r.Check(okA, "C04.verify.address", tn2, "Address",
+		}
+		switch {
+		case okAll:
+			r.OK("C04.verify.primitive", tn2, "VerifyBytes", "every true result is the result of a cryptographic verification primitive applied to the message and the signature")
+		case addrVoid:
+			// a stub key type whose Address() is the constant nil can only ever stand for the empty signer address
+			r.Viol("C04.verify.primitive", tn2, "VerifyBytes accepts everything (stub key type, Address() == nil)",
+				"VerifyBytes "+why+"; the type's Address() is the constant nil, so it signs only for an empty signer address", p.pos(vb.Pos()), nil)
+		default:
+			r.Viol("C04.verify.primitive", tn2, "VerifyBytes accepts signatures without verification for a key type with real addresses",
+				"VerifyBytes "+why+" and Address() yields real account addresses: any byte string is accepted as that account's signature", p.pos(vb.Pos()), nil)
+		}
+		if ad != nil && ad.Blocks != nil && !(addrVoid && !okAll) {
+			r.Check(addrFromKey, "C04.verify.address", tn2, "Address",
 				"the address is computed from the key material", "Address() does not derive from the key (constant or nil): the signer binding address(pubkey)==signer is void for this key type", p.pos(ad.Pos()))
 		}
 	}
